@@ -32,8 +32,111 @@ def build(tier, ctx):
         stores += [(a,) for a in it4]
         stores += [(a, b) for a in it4 for b in items(4)]
     chunk = 8 if tier == "quick" else 24
-    return [{"stores": stores[i:i + chunk]}
-            for i in range(0, len(stores), chunk)]
+    tasks = [{"stores": stores[i:i + chunk]}
+             for i in range(0, len(stores), chunk)]
+    # time window of the candidate roots: traces placed inside / straddling /
+    # outside a buffered window (time_buffer = 1)
+    wi = window_items()
+    wstores = [[a] for a in wi] + [list(c) for c in
+                                   itertools.combinations_with_replacement(wi, 2)]
+    if tier == "thorough":
+        wi3 = [x for x in wi if x[0] == "n1" and x[1] in SHAPES2[:3]]
+        wstores += [list(c) for c in
+                    itertools.combinations_with_replacement(wi3, 3)]
+    for i in range(0, len(wstores), 40):
+        tasks.append({"window": True, "stores": wstores[i:i + 40]})
+    return tasks
+
+
+M = om.M
+PLACE = {  # root interval, child interval (minutes); window is [1, 4]
+    "in": ((2.0, 3.0), (2.2, 2.8)),
+    "lo": ((0.5, 2.0), (0.6, 0.9)),     # only the root's end is inside
+    "hi": ((3.0, 4.5), (4.1, 4.4)),     # only the root's start is inside
+    "out": ((0.2, 0.8), (0.3, 0.7)),
+}
+SHAPES2 = [('a',), ('b',), ('a', ('a',)), ('a', ('b',)), ('b', ('a',)),
+           ('b', ('b',))]
+
+
+def window_items():
+    return [(nm, sh, pl) for nm in ("n1", "n2") for sh in SHAPES2
+            for pl in sorted(PLACE)]
+
+
+def window_spans(store):
+    """traces placed relative to a [1, 4] minute window fixed by two anchor
+    traces at minute 0 and minute 5 (time_buffer = 1)"""
+    traces = []
+    for k, (nm, sh, pl) in enumerate(store):
+        (rs, re_), (cs, ce) = PLACE[pl]
+        jid = f"j{k}"
+        t = [dict(job_name=nm, job_id=jid, event_type=sh[0],
+                  event_id=f"{jid}_0", start_timestamp=int(rs * M),
+                  end_timestamp=int(re_ * M), application_name="a",
+                  parent_event_id=None)]
+        for ci, c in enumerate(sh[1:]):
+            t.append(dict(job_name=nm, job_id=jid, event_type=c[0],
+                          event_id=f"{jid}_{ci + 1}",
+                          start_timestamp=int(cs * M),
+                          end_timestamp=int(ce * M), application_name="a",
+                          parent_event_id=f"{jid}_0"))
+        traces.append(t)
+    anchors = [[dict(job_name="zz", job_id="early", event_type="z",
+                     event_id="early_0", start_timestamp=0, end_timestamp=1,
+                     application_name="a", parent_event_id=None)],
+               [dict(job_name="zz", job_id="late", event_type="z",
+                     event_id="late_0", start_timestamp=5 * M - 1,
+                     end_timestamp=5 * M, application_name="a",
+                     parent_event_id=None)]]
+    return traces, anchors
+
+
+def run_window_store(store):
+    bad = []
+    n = 0
+    traces, anchors = window_spans(store)
+    exp = {}
+    for nm, sh, pl in store:
+        if pl != "out":
+            exp.setdefault(nm, set()).add(om.shape_canon(sh))
+    for bs in (1, 2, 1000):
+        for on in ("seq", "rev"):
+            allt = anchors[:1] + traces + anchors[1:]
+            order = om.ingestion_orders(allt)[on]
+            n += 1
+            h = impl_otel.new_holder(batch_size=bs, time_buffer=1)
+            try:
+                impl_otel.ingest(h, order)
+                h.remove_inconsistent_jobs()
+                h.remove_jobs_outside_of_time_window()
+                h.update_job_names_by_root_span()
+                sel = h.find_unique_graphs()
+            except Exception as e:
+                bad.append({"bs": bs, "order": on, "window": True,
+                            "problem": ["exception", type(e).__name__,
+                                        str(e)[:160]]})
+                continue
+            finally:
+                h.engine.dispose()
+            got = {}
+            prob = None
+            for nm, ids in sel.items():
+                idx = [int(j[1:]) for j in ids if j.startswith("j")]
+                if len(idx) != len(ids):
+                    prob = ["anchor_selected", nm, sorted(ids)]
+                    break
+                cs = [om.shape_canon(store[i][1]) for i in idx]
+                if len(set(cs)) != len(cs):
+                    prob = ["same_shape_twice", nm, sorted(ids)]
+                got[nm] = set(cs)
+            if prob is None and got != exp:
+                prob = ["shapes_differ", {k: len(v) for k, v in got.items()},
+                        {k: len(v) for k, v in exp.items()}]
+            if prob:
+                bad.append({"bs": bs, "order": on, "window": True,
+                            "problem": prob})
+    return n, bad
 
 
 def run_store(store):
@@ -90,6 +193,15 @@ def handle(task):
     out = []
     n = 0
     paged = 0
+    if task.get("window"):
+        for store in task["stores"]:
+            store = [(nm, _tt(sh), pl) for nm, sh, pl in store]
+            k, bad = run_window_store(store)
+            n += k
+            for b in bad:
+                b["store"] = store
+                out.append(b)
+        return {"n": n, "bad": out, "paged": 0, "window_runs": n}
     for store in task["stores"]:
         store = [(nm, _tt(sh)) for nm, sh in store]
         k, bad, pg, nreps = run_store(store)
@@ -110,21 +222,25 @@ def collect(tier, tasks, results, ctx):
     n = paged = 0
     nstores = 0
     nontrivial = 0
+    wruns = 0
     for t, r in zip(tasks, results):
         n += r["n"]
         paged += r["paged"]
+        wruns += r.get("window_runs", 0)
         for st in t["stores"]:
             nstores += 1
-            cs = [(nm, om.shape_canon(_tt(sh))) for nm, sh in st]
+            cs = [(x[0], om.shape_canon(_tt(x[1]))) for x in st]
             if len(set(cs)) < len(cs):
                 nontrivial += 1
         for b in r["bad"]:
             viol.append({
-                "key": input_key(["C09", b["store"], b["bs"], b["order"]]),
+                "key": input_key(["C09", b["store"], b["bs"], b["order"],
+                                  bool(b.get("window"))]),
                 "what": f"store={b['store']} batch={b['bs']} "
                         f"order={b['order']}: {b['problem']}",
                 "input": {"store": b["store"], "bs": b["bs"],
-                          "order": b["order"]},
+                          "order": b["order"],
+                          "window": bool(b.get("window"))},
                 "observed": b})
     he = None
     if nontrivial < 2:
@@ -149,6 +265,7 @@ def collect(tier, tasks, results, ctx):
                    else "<= 3 traces of <= 3 nodes; <= 2 traces with one of "
                         "exactly 4 nodes"},
         "stores": nstores, "runs_needing_several_root_pages": paged,
+        "runs_with_buffered_time_window": wruns,
         "states_meaning": "stores (initial database contents) explored; "
                           "transitions = configurations (batch size x "
                           "ingestion order) executed on the real code",
@@ -160,6 +277,12 @@ def collect(tier, tasks, results, ctx):
 
 def replay(rec, ctx):
     i = rec["input"]
+    if i.get("window"):
+        store = [(nm, _tt(sh), pl) for nm, sh, pl in i["store"]]
+        n, bad = run_window_store(store)
+        bad = [b for b in bad
+               if b["bs"] == i["bs"] and b["order"] == i["order"]]
+        return bool(bad), repr([b["problem"] for b in bad])[:300]
     store = [(nm, _tt(sh)) for nm, sh in i["store"]]
     n, bad, _, _ = run_store(store)
     bad = [b for b in bad if b["bs"] == i["bs"] and b["order"] == i["order"]]
